@@ -7,6 +7,7 @@ dynamic: every public entry point is called twice with deep-snapshotted argument
          compared with the verdict the Coq analysis computes for the generated program.
 plots  : figure traces and the caller's `columns` list are compared with Model.Plot evaluated by vm_compute.
 """
+COQCHK = ['C20_1d']   # cones without Coquelicot / Interval: coqchk -o re-checks them in about a minute each (thorough tier)
 import json
 import re
 import traceback
